@@ -53,6 +53,9 @@ def mk_graph_project(rng, depth=None):
             a = {"x": "$t(" + ((ns + ":") if ns else "") + "side)", "y": "[$t(" + ((ns + ":") if ns else "") + "side)]"}     # nested references as arguments
         else:
             a = {"x": "<b>{{ z }}</b>", "w": 1}
+        if a and rng.chance(1, 5):
+            # white space inside the quotes of an argument name: names are trimmed, like the names inside `{{ }}`
+            a = {rng.pick([" ", "", "  "]) + k + rng.pick([" ", "\t", ""]): v for k, v in a.items()}
         chain_args.append(a)
     meta["chain"] = chain_args
     # the reference may be the very first item of the string (what it resolves to then *starts* the value: a number or boolean
